@@ -181,6 +181,8 @@ fn check_format(case: &Value, fmt: usize) -> Option<Value> {
     let tree = render(&case["doc"], &dir);
     let (ext, text) = match fmt {
         0 => ("yaml", serde_yaml::to_string(&tree).unwrap()),
+        // flow-style YAML: JSON text is YAML too (quoted scalars, inline maps and lists)
+        3 => ("yml", serde_json::to_string(&tree).unwrap()),
         1 => ("json", serde_json::to_string_pretty(&tree).unwrap()),
         _ => ("toml", match toml::to_string(&to_toml(&tree)) {
             Ok(t) => t,
@@ -202,7 +204,7 @@ fn check_format(case: &Value, fmt: usize) -> Option<Value> {
     // strict pipeline: parse, build every appender, strict config build
     let strict: Result<(), String> = match catch(|| -> Result<(), String> {
         let raw: RawConfig = match fmt {
-            0 => serde_yaml::from_str(&text).map_err(|e| format!("parse: {}", e))?,
+            0 | 3 => serde_yaml::from_str(&text).map_err(|e| format!("parse: {}", e))?,
             1 => serde_json::from_str(&text).map_err(|e| format!("parse: {}", e))?,
             _ => toml::from_str(&text).map_err(|e| format!("parse: {}", e))?,
         };
@@ -261,7 +263,7 @@ fn check_format(case: &Value, fmt: usize) -> Option<Value> {
     }
     // refresh rate as the raw document reports it
     let raw: Result<RawConfig, String> = match fmt {
-        0 => serde_yaml::from_str(&text).map_err(|e| e.to_string()),
+        0 | 3 => serde_yaml::from_str(&text).map_err(|e| e.to_string()),
         1 => serde_json::from_str(&text).map_err(|e| e.to_string()),
         _ => toml::from_str(&text).map_err(|e| e.to_string()),
     };
@@ -318,7 +320,7 @@ pub fn main(args: &[String]) {
     quiet_panics();
     let rows = read_ndjson(&args[0]);
     let res = par_map(&rows, threads(), |i, c| {
-        for fmt in 0..3 {
+        for fmt in 0..4 {
             if let Some(m) = check_format(c, fmt) {
                 return vec![json!({"case": i, "doc": c["doc"], "class": c["class"], "mismatch": m})];
             }
@@ -326,5 +328,5 @@ pub fn main(args: &[String]) {
         vec![]
     });
     write_ndjson(&args[1], &res);
-    println!("{}", json!({"cases": rows.len(), "formats": 3, "mismatches": res.len()}));
+    println!("{}", json!({"cases": rows.len(), "formats": 4, "mismatches": res.len()}));
 }
